@@ -5,6 +5,7 @@ Cancellable = {}
 MaxGen = 2
 Kinds = {"notready", "ok"}
 MaxFlips = 0
+Reswap = FALSE
 Mutant = 2
 INIT Init
 NEXT Next
